@@ -206,6 +206,8 @@ where
                 };
             }
 
+            #[cfg(tokio_rs_tracing_verif)]
+            tracing_core::verif::yield_point("layered::try_close::before_on_close");
             self.subscriber.on_close(id, self.ctx());
             true
         } else {
